@@ -126,10 +126,20 @@ Variants ==
                             [cls |-> "length-prefix-zero", stream |-> BE32(0) \o b.body]} \cup
                            \* the input ends inside the match-length field (token announces an extension byte that is
                            \* not there) while the length prefix equals what a decoder assuming "extension = 0" produces
+                           \* the first match has offset 0
+                           {[cls |-> "offset-zero",
+                             stream |-> LET q == LzSeq(Pat(e1.ll, 1), 0, e1.ml)
+                                        IN BE32(n) \o q \o SubSeq(b.body, Len(q) + 1, Len(b.body))]} \cup
                            (IF e1.ml = 19 /\ e2.ll < 0
                             THEN {[cls |-> "truncated-in-match-length", stream |-> BE32(Len(b.mid)) \o SubSeq(b.seqs, 1, Len(b.seqs) - 1)]}
                             ELSE {})
-       ELSE {[cls |-> "length-varint-not-minimal", stream |-> <<128 + (n % 128)>> \o (IF n < 128 THEN <<0>> ELSE <<128 + (n \div 128), 0>>) \o b.body]}))
+       ELSE (IF e2.t \in {"c1", "c2", "c4"}
+             THEN {[cls |-> "offset-zero",
+                    stream |-> LET b1 == SnApply([bytes |-> <<>>, out |-> <<>>, ok |-> TRUE], e1).bytes
+                                   q == SnCopy(e2.t, 0, e2.len)
+                               IN SnVarint(n) \o b1 \o q \o SubSeq(b.body, Len(b1) + Len(q) + 1, Len(b.body))]}
+             ELSE {}) \cup
+            {[cls |-> "length-varint-not-minimal", stream |-> <<128 + (n % 128)>> \o (IF n < 128 THEN <<0>> ELSE <<128 + (n \div 128), 0>>) \o b.body]}))
 
 Emit == PrintT(<<"STREAMS", ToJson([alg |-> Alg, out |-> Base.out, ok |-> Base.ok, strictok |-> Base.strictok,
                                      variants |-> Variants])>>)
@@ -140,11 +150,11 @@ RefAgrees == LET b == Base
                  le == RefDecode(Alg, b.stream, FALSE)
              IN /\ (b.ok => le = b.out)
                 /\ (b.strictok => st = b.out)
-                /\ (~b.ok => le = Err /\ st = Err)
-                /\ (st # Err => le = st)
+                /\ (~b.ok => IsErr(le) /\ IsErr(st))
+                /\ (~IsErr(st) => le = st)
 \* every structural corruption the generator labels as such is rejected even by the lenient reading
 CorruptRejected ==
   \A v \in Variants : v.cls \in {"truncated", "length-prefix-too-large", "length-prefix-much-too-large", "length-prefix-too-small",
-                                 "offset-beyond-output", "length-prefix-little-endian", "truncated-in-match-length"}
-                      => (RefDecode(Alg, v.stream, FALSE) = Err \/ v.cls = "truncated")
+                                 "offset-beyond-output", "length-prefix-little-endian", "truncated-in-match-length", "offset-zero"}
+                      => (IsErr(RefDecode(Alg, v.stream, FALSE)) \/ v.cls = "truncated")
 =============================================================================
